@@ -231,6 +231,7 @@ pub struct Run {
     pub ndirs: u32,
     pub dead: bool,
     pub http: bool,
+    pub tok_hash: HashMap<String, String>,
 }
 
 fn idref(s: &str) -> Value {
@@ -264,6 +265,7 @@ impl Run {
             ndirs: 1,
             dead: false,
             http,
+            tok_hash: HashMap::new(),
         };
         r.start_worker();
         r
@@ -406,6 +408,11 @@ impl Run {
             let f = resp["frame"].clone();
             if let Some(h) = f["hash"].as_str() {
                 self.hash_tok.entry(h.to_string()).or_insert(content.to_string());
+                // C10: the hash is a function of the bytes alone (across calls, entry points, restarts)
+                let prev = self.tok_hash.entry(content.to_string()).or_insert(h.to_string()).clone();
+                if prev != h {
+                    self.events.push(json!({"e": "cas", "what": "same bytes, different hash", "ok": false}));
+                }
             }
             let id = f["id"].as_str().unwrap().to_string();
             self.appended.entry(t).or_default().push(Some(id.clone()));
@@ -680,15 +687,16 @@ impl Run {
         self.known_ids.clear();
         self.eph_ids.clear();
         self.ctxs.clear();
+        // only the transferred content exists in the target
+        let moved: Vec<String> = blobs.iter().map(|(h, _)| h.clone()).collect();
+        self.tok_hash.retain(|_, h| moved.contains(h));
         if !self.start_worker() {
             return;
         }
         for (h, c) in blobs {
             if c.is_string() {
                 let r = self.call(json!({"op": "cas_put", "content": c}));
-                if r["hash"].as_str() != Some(&h) {
-                    self.events.push(json!({"e": "cas_mismatch", "want": h, "got": r["hash"]}));
-                }
+                self.events.push(json!({"e": "cas", "what": "transfer: same hash in the target", "ok": r["hash"].as_str() == Some(&h)}));
             }
         }
         frames.shuffle(&mut self.rng);
@@ -725,6 +733,30 @@ impl Run {
             v.push(Some(Scru128Id::from_u128(x + 1).to_string()));
         }
         v
+    }
+
+    /// C10: content reads back byte for byte; another entry point reports the same hash
+    pub fn op_cas_probe(&mut self) {
+        let toks: Vec<(String, String)> = self.tok_hash.iter().map(|(k, v)| (k.clone(), v.clone())).collect();
+        if toks.is_empty() || self.dead {
+            return;
+        }
+        let (tok, hash) = toks[self.rng.gen_range(0..toks.len())].clone();
+        let Some(bytes) = self.fam.contents.get(&tok).cloned() else { return };
+        let r = self.call(json!({"op": "cas_read", "hash": hash}));
+        if Self::failed(&r) {
+            return;
+        }
+        let got = r["content"].as_str().and_then(|b| base64::prelude::BASE64_STANDARD.decode(b).ok());
+        self.events.push(json!({"e": "cas", "what": "read back", "ok": got.as_deref() == Some(&bytes[..])}));
+        if self.rng.gen_bool(0.3) {
+            let r = self.call(json!({"op": "cas_put", "content": base64::prelude::BASE64_STANDARD.encode(&bytes)}));
+            if Self::failed(&r) {
+                return;
+            }
+            self.events.push(json!({"e": "cas", "what": "same hash from the other entry point",
+                "ok": r["hash"].as_str() == Some(hash.as_str())}));
+        }
     }
 
     pub fn op_bad(&mut self, class: &str) {
@@ -787,6 +819,9 @@ impl Run {
     }
 
     pub fn random_probes(&mut self, n: usize) {
+        if self.rng.gen_range(0..4) == 0 {
+            self.op_cas_probe();
+        }
         if self.http && self.rng.gen_range(0..8) == 0 {
             self.op_follow_probe();
         }
@@ -846,6 +881,25 @@ impl Run {
         }
         for id in self.known_ids.clone().iter().chain(self.eph_ids.clone().iter()) {
             self.op_get(id);
+        }
+        // C10: the content of every visible frame is retrievable
+        let r = self.call(json!({"op": "read", "path": "sync", "ctx": null, "last": null, "limit": null}));
+        if Self::failed(&r) {
+            return;
+        }
+        let frames: Vec<Value> = r["frames"].as_array().cloned().unwrap_or_default();
+        let res: Vec<Value> = frames.iter().map(|f| self.abs_frame(f)).collect();
+        self.events.push(json!({"e": "read", "path": "sync", "ctx": -1, "last": -2, "lim": -1, "res": res,
+            "status": r["status"].as_i64().unwrap_or(0)}));
+        let mut hashes: Vec<String> = frames.iter().filter_map(|f| f["hash"].as_str().map(|x| x.to_string())).collect();
+        hashes.sort();
+        hashes.dedup();
+        for h in hashes {
+            let r = self.call(json!({"op": "cas_read", "hash": h}));
+            if Self::failed(&r) {
+                return;
+            }
+            self.events.push(json!({"e": "cas", "what": "visible hash has content", "ok": r["content"].is_string()}));
         }
         let mut toks: Vec<String> = self.topics_used.iter().cloned().collect();
         for extra in ["tA", "tAB", "tABC", "tE"] {
